@@ -24,6 +24,8 @@ def run(tier):
     # (growth) inputs nobody chose: value-level mutations of TLC's accepted encodings and of the accepted captures (every field
     # visits the middle of its range), the crate's answer compared with the one TLC computes from the specification
     common.dfuzz(rep, binary, PROP, cases, 4000 if tier != "thorough" else 80000)
+    # (growth) every length of the variable-size fields, not only the boundaries (MC_LenSweep)
+    common.len_sweep(rep, binary, PROP)
     return rep.finish("model_checking",
                       "cases = RFC encodings of ~700 abstract handshake values (17 variants, per-field boundary sets incl. "
                       "0/1/32/255/256/65535) with suffixes, each public body parser, every shortened hl of the small values, "
